@@ -285,8 +285,9 @@ fn rerun_cmd(a: &[&str]) -> String {
         }
         let now = strip(dump(&reader, &cfg));
         if now != before {
-            let (x, y) = before.split(") ").zip(now.split(") ")).find(|(x, y)| x != y).unwrap_or(("", ""));
-            return format!("CHANGED after {} [{}] was [{}] END", k, y, x);
+            // first node whose record differs (records start with `C(<index> N(<kind> ...`)
+            let (x, y) = before.split(" C(").zip(now.split(" C(")).find(|(x, y)| x != y).unwrap_or(("", ""));
+            return format!("CHANGED after {} pass={} node=[{}] was=[{}] END", k, ch, y, x);
         }
         let d = diags(&cfg);
         if d != before_d {
